@@ -9,6 +9,8 @@ import CogentModel.Proofs.IndelMapSliceTotal
 import CogentModel.Proofs.IndelMapAdd2
 import CogentModel.Proofs.IndelMapMul
 import CogentModel.Proofs.IndelMapJoin3
+import CogentModel.Proofs.IndelMapSegs3
+import CogentModel.Proofs.IndelMapGlen
 /-! # C08 — property theorems (gapped-coordinate maps agree with the gapped string)
 
 `abs m : List (Option Nat)` is the gapped string (column ↦ sequence index or gap) a map stands
@@ -171,8 +173,56 @@ theorem joined_spec (m : IMap) (h : WF m) (coords : List (Int × Int)) (r : IMap
 example : (joinedSegments (fromGapped [false, true, false, true, true, false]) [(3, 5), (0, 2)]).toOption
     = some (fromGapped [false, true, true, true]) := by decide
 
+/-- **`IndelMap.from_aligned_segments`**: given the ungapped segments of a well-formed map in
+alignment coordinates (what `nongap()` lists) and the aligned length, it rebuilds exactly that map —
+for every layout: leading / trailing gaps (the `(0, 0)` and `(L, L)` sentinels), the all-gap row
+(no segment at all), the gapless row (single full segment or empty string). -/
+theorem from_aligned_segments_spec (m : IMap) (h : WF m) :
+    fromAlignedSegments (nongap m) (len m) = .ok m := from_aligned_segments_spec' m h
+
+example : nongap (fromGapped [true, false, false, true]) = [(1, 3)] ∧
+    (fromAlignedSegments [(1, 3)] 4).toOption = some (fromGapped [true, false, false, true]) ∧
+    (fromAlignedSegments [] 2).toOption = some (fromGapped [true, true]) := by decide
+
+/-- **`gap_coords_to_map`**: from the `{gap position: gap length}` dictionary of a well-formed map,
+whatever the insertion order of its items, and the sequence length, the map itself is rebuilt. -/
+theorem gap_coords_to_map_spec (m : IMap) (h : WF m) (items : List (Int × Int))
+    (hp : items.Perm (getGapCoordinates m)) : gapCoordsToMap items m.parentLength = .ok m :=
+  gap_coords_to_map_spec' m h items hp
+
+example : (gapCoordsToMap [(3, 1), (1, 2)] 4).toOption = some ⟨[1, 3], [2, 3], 4⟩ ∧
+    getGapCoordinates ⟨[1, 3], [2, 3], 4⟩ = [(1, 2), (3, 1)] := by decide
+
+/-- The gap length a well-formed map holds at sequence position `p` (what `get_gap_coordinates`
+reports) is the gap run standing immediately before residue `p` of its string (trailing run for
+`p = parent_length`). -/
+theorem gap_lengths_spec (m : IMap) (h : WF m) (p : Int) (h0 : 0 ≤ p) (h1 : p ≤ m.parentLength) :
+    glen m p = (Gapped.gapsBefore (abs m) p.toNat : Int) := glen_spec' m h p h0 h1
+
+example : glen ⟨[1, 3], [2, 3], 4⟩ 3 = 1 ∧ Gapped.gapsBefore (abs ⟨[1, 3], [2, 3], 4⟩) 3 = 1 := by decide
+
+/-- **`merge_maps`**: for two well-formed maps over the same sequence, the merged map never raises,
+is well formed, and its string has before every residue (and at the end) the gap runs of both
+strings added up. -/
+theorem merge_spec (a b : IMap) (ha : WF a) (hb : WF b) (hpl : a.parentLength = b.parentLength) :
+    ∃ r, mergeMaps a b none = .ok r ∧ WF r ∧ r.parentLength = a.parentLength ∧
+      ∀ p : Nat, (p : Int) ≤ a.parentLength →
+        Gapped.gapsBefore (abs r) p = Gapped.gapsBefore (abs a) p + Gapped.gapsBefore (abs b) p := by
+  obtain ⟨r, hr, hw, hp, hg⟩ := merge_spec' a b ha hb hpl
+  refine ⟨r, hr, hw, hp, ?_⟩
+  intro p hple
+  have h1 := glen_spec' r hw p (by omega) (by omega)
+  have h2 := glen_spec' a ha p (by omega) hple
+  have h3 := glen_spec' b hb p (by omega) (by omega)
+  have := hg p
+  simp only [Int.toNat_natCast] at h1 h2 h3
+  omega
+
+example : (mergeMaps (fromGapped [false, true, false]) (fromGapped [true, false, true, true, false]) none).toOption
+    = some (fromGapped [true, false, true, true, true, false]) := by decide
+
 /- FULL STATEMENTS (not proved):
-   `merge_spec`, `minus_spec`.  They are covered by the
+   `minus_spec`, `shared_gaps_spec`.  They are covered by the
    exhaustive correspondence (model = code on every layout of length ≤ 8 x every interval) plus the
    exhaustive spec-level differential (code = string). -/
 
